@@ -24,8 +24,8 @@ var c04Mutants = []core.Mutant{
 	{Name: "action-type-read-from-other-attr", File: "diff.go", Find: "if attr.Name.Local == \"type\" {", Replace: "if attr.Name.Local == \"kind\" {", ExpectRule: "X4", ExpectConstruct: "attr type"},
 	{Name: "action-old-new-swapped-on-read", File: "diff.go", Find: "\t\tcase \"old\":\n\t\t\ta.Old = &OSM{}\n\t\t\tif err := d.DecodeElement(a.Old, &start); err != nil {", Replace: "\t\tcase \"old\":\n\t\t\ta.New = &OSM{}\n\t\t\tif err := d.DecodeElement(a.New, &start); err != nil {", ExpectRule: "X4", ExpectConstruct: "block old"},
 	{Name: "action-element-unguarded", File: "diff.go", Find: "\tif a.OSM != nil {\n\t\tif err := a.OSM.marshalInnerElementsXML(e); err != nil {\n\t\t\treturn err\n\t\t}\n\t}", Replace: "\tif err := a.OSM.marshalInnerElementsXML(e); err != nil {\n\t\treturn err\n\t}", ExpectRule: "X4", ExpectConstruct: "embedded"},
-	{Name: "date-format-other-layout", File: "note.go", Find: "return e.EncodeElement(d.Format(dateLayout), start)", Replace: "return e.EncodeElement(d.Format(time.RFC3339), start)", ExpectRule: "X5", ExpectConstruct: "layout@Date"},
-	{Name: "date-marshalled-as-struct", File: "note.go", Find: "return e.EncodeElement(d.Format(dateLayout), start)", Replace: "_ = d.Format(dateLayout)\n\treturn e.EncodeElement(d.Time, start)", ExpectRule: "X5", ExpectConstruct: "text@Date"},
+	{Name: "date-format-other-layout", File: "note.go", Find: "return e.EncodeElement(d.Format(\"2006-01-02 15:04:05.999999999 MST\"), start)", Replace: "return e.EncodeElement(d.Format(time.RFC3339), start)", ExpectRule: "X5", ExpectConstruct: "layout@Date"},
+	{Name: "date-marshalled-as-struct", File: "note.go", Find: "return e.EncodeElement(d.Format(\"2006-01-02 15:04:05.999999999 MST\"), start)", Replace: "_ = d.Format(\"2006-01-02 15:04:05.999999999 MST\")\n\treturn e.EncodeElement(d.Time, start)", ExpectRule: "X5", ExpectConstruct: "text@Date"},
 }
 
 // c04Benign: behaviour-preserving overlay edits; every rule must stay silent on each (filled in c04_benign.go).
